@@ -91,7 +91,7 @@ def generate(prop, rng, tier):
     slow_ok = rng.random() < (0.25 if not big else 0.35)
     kinds = ("ensemble", "ttf", "stack", "mux")
     spec = C.gen_forecaster(rng, depth=rng.choice([0, 0, 1, 1, 2]), allow_slow=slow_ok, kinds=kinds)
-    if prop == "C03" and rng.random() < 0.08:
+    if rng.random() < (0.08 if prop == "C03" else 0.05):
         base = C.gen_leaf(rng, allow_slow=False, allow_reduce=False)
         while base["kind"] != "naive":
             base = C.gen_leaf(rng, allow_slow=False, allow_reduce=False)
@@ -724,6 +724,18 @@ class Engine:
                 return
             self.res.probe("labels_after_stale_checked")
             exp = _expected_index(steps, actor.label(actor.cut))
+            sp_ = self.spec
+            if sp_["kind"] == "naive" and sp_.get("strategy") == "last" and sp_.get("sp", 1) == 1 \
+                    and isinstance(p, pd.Series) and len(p) == len(steps):
+                # the simplest model: every forecast is the observation at the (new) cutoff
+                want = actor.seen.get(_key(actor.label(actor.cut)))
+                if want is not None and not np.allclose(np.asarray(p.values, float), want):
+                    self.v("forecast_not_from_new_cutoff", "after an update (update_params=False) with "
+                           "a batch ending at %s, NaiveForecaster(last) forecasts %s, the observation "
+                           "at that cutoff is %.6g (%s)" % (actor.label(actor.cut), C.fmt(p), want, who),
+                           op="predict", after_update=True, values=True)
+                    self.dead = True
+                    return
             if isinstance(p, pd.Series) and len(p) == len(steps) and not C.same_index(list(p.index), exp):
                 self.v("forecast_not_from_new_cutoff", "after an update (update_params=False) with a "
                        "batch ending at %s, predict(%s) is labelled %s, expected %s (%s)" % (
